@@ -70,7 +70,7 @@ def c18_family(tier, sd=0):
     if tier == "thorough":
         rng = random.Random(sd)
         alpha = "abAZ09_"
-        for _ in range(24):
+        for _ in range(48):
             k = rng.randint(1, 4)
             names = rng.sample(sorted(POOL), k)
             used = set()
